@@ -658,6 +658,7 @@ func main() {
 		{"timeSrc", []string{"TimeSrc.lean"}, genTimeSrc},
 		{"posLits", []string{"PosLits.lean"}, genPosLits},
 		{"connWrapSrc", []string{"ConnWrapSrc.lean"}, genConnWrapSrc},
+		{"tickSrc", []string{"TickSrc.lean"}, genTickSrc},
 	}
 	status := map[string]interface{}{}
 	failed := 0
